@@ -1,10 +1,13 @@
 #!/bin/bash
 # tools/run_seeds.sh [name-prefix] : apply each seeded change to /repo, run the check of the property it breaks, undo.
+# Full output of every run is kept in ${SEEDLOGS:-/tmp/seedlogs}/<seed>.log (scratch, not needed by any registered command).
 cd /verif
+logs=${SEEDLOGS:-/tmp/seedlogs}; mkdir -p "$logs"
 for d in seeded/${1:-}*/; do
-  n=$(basename $d); p=$(python3 -c "import json;print(json.load(open('$d/meta.json'))['property'])")
-  out=$(tools/try_patch.sh $PWD/$d/patch.diff $p 2>&1)
-  ex=$(echo "$out" | grep -o "exit [0-9]*" | tail -1)
-  first=$(echo "$out" | grep -m1 "failed obligation" )
+  n=$(basename $d); [ -f $d/meta.json ] || continue
+  p=$(python3 -c "import json;print(json.load(open('$d/meta.json'))['property'])")
+  tools/try_patch.sh $PWD/$d/patch.diff $p > "$logs/$n.log" 2>&1
+  ex=$(grep -o "exit [0-9]*" "$logs/$n.log" | tail -1)
+  first=$(grep -m1 "failed obligation" "$logs/$n.log")
   echo "$n [$p] -> $ex | $first"
 done
